@@ -108,6 +108,14 @@ class ParseStream(runner.Stream):
             one(simple_module("M", [("def", "A", None, ("int", None, G.I64_MAX, ext, []))]), "int_min_i64max")
         one(simple_module("M", [("def", "A", None, seq([fld("a", ("int", 0, None, False, []), "opt")]))]), "int_0_max")
         one(simple_module("M", [("def", "A", None, ("seqof", ("any",), ("int", 0, None, False, [("x", 1)])))]), "int_0_max")
+        # regression: an extensible SIZE with an open root, `SIZE(0..MAX, ...)`, was refused with a parse error
+        # (the no-constraint shortcut expected `)`); repaired: it is the extensible range it says
+        for lo in (0, "MIN"):
+            for hi in ("MAX", G.SIZE_MAX):
+                for ty in (("oct", ("range", lo, hi, True)), ("str", "utf8", ("range", lo, hi, True)), ("bit", ("range", lo, hi, True), []),
+                           ("seqof", ("range", lo, hi, True), INT), ("setof", ("range", lo, hi, True), ("bool",))):
+                    one(simple_module("M", [("def", "A", None, ty)]), "size_open_ext")
+                    one(simple_module("M", [("def", "A", None, seq([fld("a", ty, "opt"), fld("b", INT)]))]), "size_open_ext")
         # extension marker before the first component / a second marker
         for k in ("seq", "set"):
             for n in range(0, 4):
@@ -222,8 +230,6 @@ class ParseStream(runner.Stream):
             out.append(f"parse rt {hx(text)} !err !err rejected:-")
 
         hdr = "M DEFINITIONS AUTOMATIC TAGS ::= BEGIN\n"
-        raw(hdr + "A ::= OCTET STRING (SIZE(0..MAX, ...))\nEND")
-        raw(hdr + "A ::= UTF8String (SIZE(MIN..MAX, ...))\nEND")
         raw(hdr + "A ::= INTEGER (5)\nEND")
         raw(hdr + "A ::= SEQUENCE { a [0] IMPLICIT INTEGER }\nEND")
         raw(hdr + "A ::= SEQUENCE { a [0] EXPLICIT INTEGER }\nEND")
@@ -313,7 +319,7 @@ class ParseStream(runner.Stream):
                 one(simple_module("Ch", [("def", "A", None, ("choice", alts, extpos))]), "choice")
         # SEQUENCE / SET: marker after every component, OPTIONAL / DEFAULT of every literal kind
         lits = [("b", True), ("b", False), ("i", 0), ("i", -5), ("i", G.I64_MAX), ("i", G.I64_MIN),
-                ("s", ["hello"]), ("s", ["two", "words"]), ("s", ["a", ",", "b"]), ("s", ["x", ".", ".", "y", "(", ")"]),
+                ("s", ["hello"]), ("s", ["two", "words"]), ("s", ["ID", " none"]), ("s", ["km", "   h"]), ("s", ["a", " ,", "  b", " c"]), ("s", ["a", ",", "b"]), ("s", ["x", ".", ".", "y", "(", ")"]),
                 ("o", "AB"), ("o", "00ff10"), ("ob", "10100000"), ("ob", "0000000111111111"),
                 ("ref", "someValue"), ("ref", "green")]
         for k in ("seq", "set"):
